@@ -16,6 +16,9 @@ for d in sorted(glob.glob(os.path.join(VERIF, 'seeded', '*'))):
     first = m.get('history', '')
     first = 'missed, then caught' if first.lower().startswith(('missed', 'the first run ended')) else 'caught'
     now = ', '.join(m.get('detected_by', [])) or 'NOT CAUGHT'
+    if m.get('out_of_scope'):
+        first = 'not caught'
+        now = 'none (judged outside the property)'
     rows.append('| %s | %s | %s | %s | %s |' % (
         name, m.get('what', '').replace('|', '/'),
         m.get('needs', '').replace('|', '/'), first, now))
@@ -30,12 +33,16 @@ else:
                lambda _: '<!-- seedtable -->\n' + block +
                '\n<!-- /seedtable -->', s, flags=re.S)
 missed = sum(1 for r in rows if '| missed, then caught |' in r)
+oos = sum(1 for r in rows if '| not caught |' in r)
 summary = ('%d seeded changes have been confirmed so far (rounds of '
            'sub-agents, two changes each, per claimed property); %d were '
-           'caught by the check as it stood when the change arrived and %d '
-           'were not; all %d are caught by the current quick tier '
-           '(`selftest/run_mutants.py`).' % (len(rows), len(rows) - missed,
-                                            missed, len(rows)))
+           'caught by the check as it stood when the change arrived, %d '
+           'were missed and are caught since the check was strengthened, '
+           'and %d are not caught because they were judged to fall outside '
+           'the property (reasons in the table); the %d others are all '
+           'caught by the current quick tier (`selftest/run_mutants.py`).'
+           % (len(rows), len(rows) - missed - oos, missed, oos,
+              len(rows) - oos))
 s = re.sub(r'<!-- seedsummary -->.*?<!-- /seedsummary -->',
            lambda _: '<!-- seedsummary -->\n' + summary +
            '\n<!-- /seedsummary -->', s, flags=re.S)
